@@ -199,7 +199,7 @@ fn main() {
     // universe with build metadata (eq must ignore build) and wide numbers
     let u_build = universe(&["0", "1", "10"], &["0", "10", "a", "B"], 2, &["", "x", "1", "0.a"]);
     let s_build = check_pairs(&ctx, &u_build);
-    let u_wide = universe(&["0", "9", "10", "4294967296", "9999999999999999999", "18446744073709551615"], &["9", "10", "18446744073709551615", "a"], if quick { 1 } else { 2 }, &[""]);
+    let u_wide = universe(&["0", "9", "10", "4294967296", "9999999999999999999", "18446744073709551615"], &["9", "10", "18446744073709551615", "a", "-", "1000000000000000000", "9000000000000000000", "10000000000000000000", "9999999999999999999"], if quick { 1 } else { 2 }, &[""]);
     let s_wide = check_pairs(&ctx, &u_wide);
     // hyphenated identifiers: one alphanumeric identifier each in SemVer 2.0.0, never a separator
     let u_hyph = universe(&["0", "1"], &["rc", "rc-2", "rc-10", "2", "10", "1-0", "-", "rc-", "-1", "a-b", "0-0"], 2, &[""]);
